@@ -129,11 +129,11 @@ Proof.
   { unfold ck_changed. rewrite B. reflexivity. }
   assert (H4 : deps_changed v (getrec (s_db s') t) (s_defs s t) = deps_changed v (getrec (s_db s) t) (s_defs s t)).
   { unfold deps_changed. rewrite A. reflexivity. }
-  assert (H5 : forall f, file_verdict md5 (s_ck s) (s_fs s) (getrec (s_db s') t) f = file_verdict md5 (s_ck s) (s_fs s) (getrec (s_db s) t) f).
-  { intros f. unfold file_verdict. rewrite C. reflexivity. }
+  assert (H5 : forall f, dep_verdict md5 v (s_ck s) (s_fs s) (getrec (s_db s') t) f = dep_verdict md5 v (s_ck s) (s_fs s) (getrec (s_db s) t) f).
+  { intros f. unfold dep_verdict, outside_saved_deps. rewrite A, C. reflexivity. }
   rewrite H3, H4. rewrite H1, H2.
-  assert (H6 : Forall (fun f => file_verdict md5 (s_ck s) (s_fs s) (getrec (s_db s') t) f = FSame) (file_dep (s_defs s t)) <->
-               Forall (fun f => file_verdict md5 (s_ck s) (s_fs s) (getrec (s_db s) t) f = FSame) (file_dep (s_defs s t))).
+  assert (H6 : Forall (fun f => dep_verdict md5 v (s_ck s) (s_fs s) (getrec (s_db s') t) f = FSame) (file_dep (s_defs s t)) <->
+               Forall (fun f => dep_verdict md5 v (s_ck s) (s_fs s) (getrec (s_db s) t) f = FSame) (file_dep (s_defs s t))).
   { rewrite !Forall_forall. split; intros H f Hf; [rewrite <- H5 | rewrite H5]; auto. }
   rewrite H6. tauto.
 Qed.
